@@ -77,6 +77,30 @@ let () =
       (* representation of one type on both sides *)
       let t = parse_ty t in
       Printf.printf "TY %s | %s | wf=%d\n" (show_ll (ll_ty t)) (show_c (c_ty t)) (if wf_ty t then 1 else 0)
+    | ["SP"; base; form] ->
+      (* frontend: the spelling of <base> in <form>, what the parser model makes of it, what it means
+         base: Z K B W C T V N<id>; form: value ref listvalue listref parenvalue parenlistvalue
+         output: SP <tokens> | <spec>:<isref> diag=<n> rest=<n> | <meant spec>:<isref> *)
+      let b = match base.[0] with
+        | 'Z' -> BPrim PZahl | 'K' -> BPrim PKommazahl | 'B' -> BPrim PByte | 'W' -> BPrim PWahrheitswert | 'C' -> BPrim PBuchstabe
+        | 'T' -> BText | 'V' -> BVariable
+        | _ -> BNamed (nat_of_int (int_of_string (String.sub base 1 (String.length base - 1)))) in
+      let f = match form with
+        | "value" -> FValue | "ref" -> FRef | "listvalue" -> FListValue | "listref" -> FListRef
+        | "parenvalue" -> FParenValue | _ -> FParenListValue in
+      let show_tok = function
+        | TkZahl -> "Zahl" | TkKommazahl -> "Kommazahl" | TkByte -> "Byte" | TkWahrheitswert -> "Wahrheitswert" | TkBuchstabe -> "Buchstabe"
+        | TkText -> "Text" | TkVariable -> "Variable" | TkZahlen -> "Zahlen" | TkKommazahlen -> "Kommazahlen" | TkBuchstaben -> "Buchstaben"
+        | TkVariablen -> "Variablen" | TkIdent n -> Printf.sprintf "N%d" (int_of_nat n) | TkListe -> "Liste" | TkListen -> "Listen"
+        | TkReferenz -> "Referenz" | TkLParen -> "(" | TkRParen -> ")" | TkOther -> "," in
+      let rec show_sty = function
+        | SPrim PZahl -> "Z" | SPrim PKommazahl -> "K" | SPrim PByte -> "B" | SPrim PWahrheitswert -> "W" | SPrim PBuchstabe -> "C"
+        | SText -> "T" | SVariable -> "V" | SNamed n -> Printf.sprintf "N%d" (int_of_nat n) | SList e -> "L(" ^ show_sty e ^ ")" in
+      let toks = spelled b f in
+      let res = match parse_reference_type (app toks [TkOther]) with
+        | None -> "none"
+        | Some p -> Printf.sprintf "%s:%d diag=%d rest=%d" (show_sty p.pr_ty) (if p.pr_ref then 1 else 0) (int_of_nat p.pr_diag) (List.length p.pr_rest) in
+      Printf.printf "SP %s | %s | %s:%d\n" (String.concat " " (List.map show_tok toks)) res (show_sty (meant_ty b f)) (if meant_ref f then 1 else 0)
     | "GEN" :: name :: ret :: kinds :: ps ->
       (* generic extern function: gv:<inst> = "T Liste" by value, gr:<inst> = Referenz mentioning T; ret GL:<inst> = "eine T Liste".
          The signature is lowered from the generic declaration, the plan from the instantiation. *)
